@@ -58,7 +58,7 @@ def make_faulty(real_cls, state):
 def gen(st, tier):
     w = st["workload"]
     f = st["faults"]
-    if w.random() < 0.04:
+    if w.random() < 0.03:
         # concurrent writers under one session key, each with its own package object
         from sim import conc
         pre, ch = conc.sched_spec(st["schedule"])
